@@ -5,14 +5,18 @@
 
    Start state (start_ok): what BundleBuilder::build / new_std_payload_bundle guarantee about the block list
    (built_by_builders: it is the output of the stable descending sort and its last block carries payload data),
-   Bundle::validate accepts it, and wf_bundle (the C01 domain: integer widths, EIDs in constructor normal form,
-   known CRC type, block data variant determined by the block type — the last one is not implied by validate,
-   which accepts CanonicalData::Unknown under any block type).
+   Bundle::validate accepts it, and wf_bundle_u (Model/WfExt.v: the C01 domain extended to unknown CRC types — integer
+   widths, EIDs in constructor normal form, CRC value of the right length or CrcUnknown k with 3 <= k <= 255, block data
+   variant determined by the block type — the last one is not implied by validate, which accepts CanonicalData::Unknown
+   under any block type).  wf_bundle implies wf_bundle_u (C11_wf_conservative).
+   SetCrc takes EVERY u8 code: an unknown type (3..255) is stored as CrcUnknown, has no CRC field on the wire, and the
+   round trip of such bundles is C11_roundtrip_unknown_crc (Proofs/CodecUnknownCrc.v; Model/Wf.v and Proofs/CodecProofs.v
+   are unchanged).
    Admissible arguments (op_admissible b0): see Model/OpSeq.v op_ok; requested block numbers, payload bytes,
    residence times (any N, not only u128) and clock values >= 2000-01-01 are arbitrary. *)
 From Coq Require Import Sorting.Sorted.
-From BP7 Require Import Base.Prelude Gen.Consts Model.Types Model.Encode Model.Decode Model.Wf Model.Validate Model.Ops
-  Model.OpSeq Spec.Rules Proofs.InvariantProofs.
+From BP7 Require Import Base.Prelude Gen.Consts Model.Types Model.Encode Model.Decode Model.Wf Model.WfExt Model.Validate Model.Ops
+  Model.OpSeq Spec.Rules Proofs.CodecUnknownCrc Proofs.InvariantProofs.
 
 Theorem C11_invariant : forall m b0 ops, start_ok b0 -> Forall (op_admissible b0) ops ->
   exists b, fold_res (step m) ops b0 = Ok b
@@ -20,6 +24,14 @@ Theorem C11_invariant : forall m b0 ops, start_ok b0 -> Forall (op_admissible b0
             /\ payload b = last_payload_set b0 ops
             /\ (let '(bs, b') := to_cbor b in from_cbor bs = Ok b').
 Proof. exact invariant_all. Qed.
+
+(* the round trip the last conjunct rests on, for every bundle of the extended domain (any mix of CRC types 0/1/2 and unknown
+   types 3..255 over the blocks); nothing but stored CRC values changes; and the extension is conservative *)
+Theorem C11_roundtrip_unknown_crc : forall b, wf_bundle_u b = true ->
+  let '(bs, b') := to_cbor b in from_cbor bs = Ok b' /\ only_crc_changed b b' /\ crcs_filled_u b' = true.
+Proof. exact to_cbor_roundtrip_u. Qed.
+Theorem C11_wf_conservative : forall b, wf_bundle b = true -> wf_bundle_u b = true.
+Proof. exact wf_bundle_u_of_wf. Qed.
 
 (* the builders establish the invariant *)
 Theorem C11_start : forall b, start_ok b -> Inv b.
@@ -93,6 +105,17 @@ Proof.
   rewrite C11_ex_run in E. inversion E; subst. split; [assumption|]. rewrite HP. vm_compute. reflexivity.
 Qed.
 
+(* an unknown CRC type: every block keeps its five (primary: eight) elements, no CRC field, and the bundle decodes again *)
+Definition ex_ops_u : list op := [SetCrc 200; AddBlock (mkcanonical 192 0 0 (CrcUnknown 7) (Unknown [])); SetPayload [n2b 1]; SetCrc 1; SetCrc 255].
+Example C11_ex_admissible_u : Forall (op_admissible ex_b4) ex_ops_u.
+Proof. repeat constructor. Qed.
+Example C11_ex_unknown_crc_run :
+  match fold_res (step Checked) [SetCrc 200] ex_b4 with
+  | Ok b => forallb (fun c => crc_eqb (c_crc c) (CrcUnknown 200)) (b_canonicals b) && crc_eqb (p_crc (b_primary b)) (CrcUnknown 200)
+            && (let '(bs, b') := to_cbor b in match from_cbor bs with Ok d => bundle_eqb d b && bundle_eqb b' b | _ => false end)
+  | _ => false end = true.
+Proof. vm_compute. reflexivity. Qed.
+
 (* boundary witnesses of the two defects of the pinned tree that touched this property *)
 (* highest block number 2^64-1: the checked numbering adds nothing (the original `+ 1` overflowed) *)
 Definition ex_max : bundle :=
@@ -108,12 +131,12 @@ Proof. vm_compute. reflexivity. Qed.
 Example C11_ex_t0_add : validate (add_canonical_block ex_t0 (mkcanonical 7 0 0 CrcNo (BundleAge 0))) = [].
 Proof. vm_compute. reflexivity. Qed.
 
-(* why start_ok asks for wf_bundle on top of validate: a bundle age block (type 7) carrying CanonicalData::Unknown is accepted by
+(* why start_ok asks for wf_bundle_u on top of validate: a bundle age block (type 7) carrying CanonicalData::Unknown is accepted by
    validate, yet it does not survive to_cbor / from_cbor (the decoder re-reads the bytes as BundleAge) *)
 Definition ex_unk7 : bundle :=
   mkbundle (ex_primary 1000) [mkcanonical 7 2 0 CrcNo (Unknown [n2b 5]); mkcanonical 1 1 0 CrcNo (Data [])].
 Example C11_ex_unknown_typed :
-  validate ex_unk7 = [] /\ wf_bundle ex_unk7 = false /\
+  validate ex_unk7 = [] /\ wf_bundle_u ex_unk7 = false /\
   (let '(bs, b') := to_cbor ex_unk7 in match from_cbor bs with Ok d => bundle_eqb d b' | _ => false end) = false.
 Proof. vm_compute. repeat split; reflexivity. Qed.
 
@@ -126,6 +149,8 @@ Check C11_start : forall b, start_ok b -> Inv b.
 
 Print Assumptions C11_invariant.
 Print Assumptions C11_start.
+Print Assumptions C11_roundtrip_unknown_crc.
+Print Assumptions C11_wf_conservative.
 Print Assumptions C11_builder_build.
 Print Assumptions C11_std_bundle.
 Print Assumptions C11_step.
